@@ -150,20 +150,10 @@ fn build_decision_service_evaluator(
       if let Ok(item_definition_evaluator) = model_evaluator.item_definition_evaluator() {
         if let Ok(input_data_evaluator) = model_evaluator.input_data_evaluator() {
           if let Ok(decision_evaluator) = model_evaluator.decision_evaluator() {
-            // evaluate input decisions and store the results in separate context
-            let mut input_decisions_results = FeelContext::default();
-            input_decisions.iter().for_each(|id| {
-              decision_evaluator.evaluate(id, input_data, model_evaluator, &mut input_decisions_results);
-            });
             // now evaluate input data for encapsulated and output decisions and store them in separate context
             let mut evaluated_input_data = FeelContext::default();
-            // first take values from evaluated input decisions...
-            let input_decision_results_value = Value::Context(input_decisions_results);
-            for evaluator in &input_decision_results_evaluators {
-              let (name, value) = evaluator(&input_decision_results_value, &item_definition_evaluator);
-              evaluated_input_data.set_entry(&name, value);
-            }
-            // ...and then take values from provided input data
+            // the results of input decisions are parameters of the service: they are taken from the provided input data
+            // and never evaluated here (an input decision that invokes this service would recurse endlessly)
             let input_data_values = Value::Context(input_data.clone());
             for evaluator in &input_decision_results_evaluators {
               let (name, value) = evaluator(&input_data_values, &item_definition_evaluator);
